@@ -70,14 +70,6 @@ Qed.
 Lemma relB_rev l evs : relB l (rev evs) = relB l evs.
 Proof. unfold relB. apply filter_rev_length. Qed.
 
-Lemma hc_acq1 t k m s : can1 k m s = true -> hc t s = 0 -> hc t (acq1 t k m s) = 1.
-Proof.
-  unfold can1, acq1, hc. destruct s as [wr rd]. destruct (shared k m); cbn [writer readers]; intros C H.
-  - unfold no_writer in C. cbn [writer] in C. destruct wr; [discriminate|]. unfold writer_is in *. cbn [writer] in *.
-    rewrite count_cons_self. lia.
-  - unfold writer_is. cbn [writer count]. now rewrite Nat.eqb_refl.
-Qed.
-
 Lemma uev_nomark e : uev e -> nomark_ev e.
 Proof. destruct e; simpl; tauto. Qed.
 Lemma tail_nomark e : tail_ev e -> nomark_ev e.
@@ -89,7 +81,7 @@ Lemma scoped_shape_scan sc t c m w w' :
   can_all m (kleaves (shape_of sc c)) (w_raw w) = true -> NoDup (leaves (shape_of sc c)) ->
   closure_scan [] (rev (w_trace w')) (leaves (shape_of sc c)) = (1, true).
 Proof.
-  intros [w1 [w2 [evA [evR [TA [NA [BA [RA [HA [Hraw [F [TR FR]]]]]]]]]]]] Tw H0 Can ND.
+  intros [w1 [w2 [evA [evR [TA [NA [BA [RA [_ [HA [Hraw [F [TR FR]]]]]]]]]]]]] Tw H0 Can ND.
   destruct (fr_tr _ _ F) as [U [TU FU]]. cbn [emit w_trace] in TU.
   rewrite TR, TU, TA, Tw, app_nil_r.
   rewrite !rev_app_distr. cbn [rev]. rewrite <- !app_assoc. cbn [app].
